@@ -58,6 +58,9 @@ ObsGuards == \A p \in P : (~R.thr[p].busy /\ ~R.thr[p].gone) =>
                /\ R.thr[p].gc = R.thr[p].ug
 \* C16: inside reactivate_after the thread is unpinned iff the guard is the sole live one
 ObsReactAfter == Len(R.ra) = 3 => ((R.ra[2] = 1) = (R.ra[3] > 1))
+\* C16: reactivating a guard that is not the only live one changes nothing: the announcement stays
+ObsReactNonSole == (HasPrev /\ R.t # 0 /\ R.thr[R.t].nonsole /\ Q.thr[R.t].nonsole) =>
+                     /\ R.thr[R.t].lep = Q.thr[R.t].lep /\ R.thr[R.t].pin /\ Q.thr[R.t].pin
 \* C15: captured data intact; at the end every deferred function ran exactly once
 ObsData == \A k \in 1..NTk(R) : R.task[k].bad = 0
 ObsAllRan == R.k = "fin" => \A k \in 1..NTk(R) : (R.task[k].st # "new" => R.task[k].ran = 1)
@@ -66,7 +69,7 @@ ObsNoPanic == R.k # "abort"
 V(name, ok) == ok \/ PrintT(<<"VIOL", name, R.sc, l>>)
 Report ==
   /\ V("C13", C13) /\ V("EpochBound", EpochBound) /\ V("Once", Once) /\ V("TypeOK", TypeOK)
-  /\ V("ObsMono", ObsMono) /\ V("ObsFrame", ObsFrame) /\ V("ObsGuards", ObsGuards) /\ V("ObsReactAfter", ObsReactAfter)
+  /\ V("ObsMono", ObsMono) /\ V("ObsFrame", ObsFrame) /\ V("ObsGuards", ObsGuards) /\ V("ObsReactAfter", ObsReactAfter) /\ V("ObsReactNonSole", ObsReactNonSole)
   /\ V("ObsData", ObsData) /\ V("ObsAllRan", ObsAllRan) /\ V("ObsNoPanic", ObsNoPanic)
 Accepted == (TLCGet("stats").diameter = Len(Rec) /\ PrintT(<<"ACCEPTED", Len(Rec)>>))
             \/ PrintT(<<"REJECTED", TLCGet("stats").diameter, Len(Rec)>>)
